@@ -7,6 +7,7 @@ import (
 	"path/filepath"
 	"sort"
 	"strings"
+	"symgo/smt"
 	"time"
 
 	"symgo/interp"
@@ -210,6 +211,28 @@ func finishCheck(prop, tier string, seed int64, spec PropSpec, results []jobResu
 	if rp != nil {
 		rp.close()
 	}
+	// cross-solver: a sample of the assertion queries, as standalone scripts, re-decided by z3 5.1.0 and cvc5
+	crossN, crossAgree, crossUnknown := 0, 0, 0
+	crossBy := map[string]int{}
+	for _, jr := range results {
+		for _, q := range jr.Sum.Cross {
+			crossN++
+			for _, sv := range [][]string{{"z3-new", "-in"}, {"cvc5", "--lang", "smt2"}} {
+				got := smt.RunScript(sv[0], sv[1:], q.Script, 60*time.Second).String()
+				switch {
+				case got == "unknown":
+					crossUnknown++
+				case got == q.Result:
+					crossAgree++
+					crossBy[sv[0]]++
+				default:
+					problems = append(problems, fmt.Sprintf("job %s: cross-solver disagreement on an assertion query of %s: z3 4.8.12 %s, %s %s", jr.Job.Name, q.Label, q.Result, sv[0], got))
+					os.MkdirAll(filepath.Join(verifDir, "evidence", "queries"), 0o755)
+					os.WriteFile(filepath.Join(verifDir, "evidence", "queries", fmt.Sprintf("%s-disagree-%d.smt2", prop, crossN)), []byte(q.Script), 0o644)
+				}
+			}
+		}
+	}
 
 	// known findings
 	var kfReported []string
@@ -272,6 +295,7 @@ func finishCheck(prop, tier string, seed int64, spec PropSpec, results []jobResu
 		"init_log":                      eng.InitLog,
 		"outside_the_claim":             spec.Outside,
 		"solver":                        "z3 -in (one process per worker), QF_BV terms, push/pop per query",
+		"cross_solver":                  map[string]interface{}{"assertion_queries_sampled": crossN, "verdicts_agreeing": crossAgree, "by_solver": crossBy, "unknown_or_timeout": crossUnknown, "solvers": []string{"z3-new 5.1.0", "cvc5 1.0"}},
 	}
 	ev := map[string]interface{}{
 		"property_id": prop, "tier": tier, "seed": seed, "level": "model_checking", "wall_s": time.Since(t0).Seconds(),
